@@ -13,3 +13,6 @@ def run(rep, W, ctx):
     # "for every request the status .. carries precisely the protocol outcome": a response that is NOT derived from the
     # operation's outcome is one of the tabled refusals (a 4xx, decided before any storage access, for a listed reason)
     H.c15_refuse(rep, W)
+    # "X-Snapshot-Request exactly when a snapshot is wanted": wanted = the urgency of the pre-request record's two measures
+    from rules import shared as S
+    S.c12_max(rep, W)
